@@ -20,7 +20,7 @@ FAM = GBFamily(
     rounds={"quick": [M("registry", mc=True), M("shapes"), M("dates", y0=1999, y1=2001), M("corpus", pipelen=1),
                       M("corpus", pipelen=2, stride=7)],
             "thorough": [M("registry", mc=True), M("shapes"), M("dates", y0=1900, y1=2100, batch=500),
-                         M("corpus", pipelen=2), M("corpus", pipelen=3, stride=5)]},
+                         M("corpus", pipelen=2), M("corpus", pipelen=3, stride=2)]},
     trace_consts=dict(Devs=DEVS),
     harness_args=["-data", os.path.join(REPO, "seqio", "testdata")],
     rule_text=("shapes: a base record with every alternative of every header field / feature table / qualifier form / "
